@@ -260,19 +260,29 @@ def composed_case(ctx, rng, idx):
              'shape': obs.shape, 'n_sim': n_sim}
     describe = dict(feats, observations=obs, simulated=sim)
     ctx.case(('composed', tuple(c[:6] for c in cnames), tuple(blocks),
-              nested, sort, has_nan), True, sample=describe)
+              nested, sort, has_nan, idx % 2), True, sample=describe)
     ctx.count('composed_cases')
     if has_nan:
         ctx.count('cases_with_nan')
     edges = np.concatenate([[0], np.cumsum(blocks)])
     parts = [make_filter(c, obs[:, :, a:b].copy(), k)
              for c, k, a, b in zip(cnames, ks, edges[:-1], edges[1:])]
+    order = np.arange(n_t)
+    inner_sorted = False
     if nested:
         inner = chi.ComposedPopulationFilter(parts[:2])
+        if rng.random() < 0.5:
+            # the inner composite is re-ordered on its own before it becomes
+            # part of the outer one
+            n_in = int(edges[2])
+            o_in = rng.permutation(n_in)
+            inner.sort_times(o_in)
+            order = np.concatenate([o_in, np.arange(n_in, n_t)])
+            inner_sorted = True
         flt = chi.ComposedPopulationFilter([inner] + parts[2:])
     else:
         flt = chi.ComposedPopulationFilter(parts)
-    order = np.arange(n_t)
+    feats['inner_sorted'] = inner_sorted
     try:
         for _ in range(sort):
             o = rng.permutation(n_t)
